@@ -113,8 +113,8 @@ def run_case(case):
     so = default_sph(l)
     classes = [kind, "l:%d" % l]
 
-    def gt(cart, sph, side="left"):
-        return cm.call(generate_transformation, l, np.array(cart, dtype=int).reshape(-1, 3), sph, side)
+    def gt(cart, sph, side="left", dtype=int):
+        return cm.call(generate_transformation, l, np.array(cart, dtype=dtype).reshape(-1, 3), sph, side)
 
     base = gt(co, tuple(so))
     if isinstance(base, cm.Raised) or not isinstance(base, np.ndarray) or base.shape != (2 * l + 1, len(co)):
@@ -187,8 +187,9 @@ def run_case(case):
             rng = bases.rng_for("C10", "cp", *case["seed"])
             perms = (list(rng.permutation(n)) for _ in range(case["n"]))
         bad = 0
+        DT = (int, np.int8, np.int16, np.int32, np.int64)  # signed integer widths of the caller's component array (unsigned arrays are outside the scope: 2n-1 wraps)
         for perm in perms:
-            out = gt([co[i] for i in perm], tuple(so), "left" if evals % 2 else "right")
+            out = gt([co[i] for i in perm], tuple(so), "left" if evals % 2 else "right", dtype=DT[evals % len(DT)] if kind == "cartperm-random" or evals % 7 == 0 else int)
             want = base[:, perm] if evals % 2 else base[:, perm].T
             evals += 1
             if isinstance(out, cm.Raised) or not np.array_equal(out, want):
@@ -206,8 +207,19 @@ def run_case(case):
         bad = 0
         for perm, signs in pats:
             labs = tuple(("-" if s < 0 else "") + so[i] for i, s in zip(perm, signs))
-            out = gt(co, labs)
             want = base[list(perm)] * np.array(signs, dtype=float)[:, None]
+            if evals % 5 == 0:  # the same list object handed over twice: must be left alone and give the same answer
+                lst = list(labs)
+                first = gt(co, lst)
+                out = gt(co, lst, "right")
+                out = out if isinstance(out, cm.Raised) else np.asarray(out).T
+                evals += 1
+                if lst != list(labs):
+                    viols.append(cm.viol("the caller's spherical_order list was modified: %s -> %s" % (list(labs), lst), "labels_mutated", labels=list(labs)))
+                elif isinstance(first, cm.Raised) or not np.array_equal(first, want):
+                    out = first
+            else:
+                out = gt(co, labs)
             evals += 1
             if isinstance(out, cm.Raised) or not np.array_equal(out, want):
                 bad += 1
